@@ -47,6 +47,10 @@ func (b uniqueB) Invalidates(ml.Broadcast) bool { return false }
 type plainB struct{ *tb }
 
 func (b plainB) Invalidates(o ml.Broadcast) bool {
+	if b.group == "g*" {
+		// a "latest wins over everything I am shown" rule: the queue may only ever show it plain broadcasts
+		return true
+	}
 	p, ok := o.(plainB)
 	return ok && p.group == b.group
 }
@@ -102,6 +106,7 @@ func c10Alphabet(full bool) []qop {
 		{Op: "Q", Kind: "named", Name: "b", Size: 2, Fill: 'b'},
 		{Op: "Q", Kind: "plain", Name: "g1", Size: 2, Fill: 'p'},
 		{Op: "Q", Kind: "plain", Name: "g2", Size: 2, Fill: 'q'},
+		{Op: "Q", Kind: "plain", Name: "g*", Size: 2, Fill: 'w'}, // its Invalidates says yes to whatever it is shown
 		{Op: "Q", Kind: "named", Name: "", Size: 2, Fill: 'e'}, // a subject whose name is the empty string, next to nameless broadcasts
 		{Op: "G", Ov: 0, Lim: 2},
 		{Op: "G", Ov: 0, Lim: 100},
@@ -188,7 +193,7 @@ func (q *refQueue) queue(b *tb) (fin []*tb) {
 		}
 	case "plain":
 		for _, it := range append([]*refItem(nil), q.items...) {
-			if it.b.kind == "plain" && it.b.group == b.group {
+			if it.b.kind == "plain" && (it.b.group == b.group || b.group == "g*") {
 				fin = append(fin, it.b)
 				q.remove(it)
 			}
@@ -502,7 +507,7 @@ func TestC10(t *testing.T) {
 	startNodes := []int{9}
 	rep.Bounds = map[string]any{"depth": depth, "alphabet": len(alpha), "retransmit_mults": mults, "bfs_max_live_items": maxLive, "start_num_nodes": startNodes}
 	rep.Rule = "every operation sequence over the alphabet up to the depth on a never-used queue, plus a state-merged BFS to fixpoint; a case is one (sequence prefix, next op) transition checked against the reference model; distinct = distinct canonical queue states"
-	rep.Assumptions = []string{"message sizes from {1,2,3,5}; names from {a,b,\"\"}; two plain invalidation groups", "the queue is driven from one goroutine (all operations serialise on its mutex)"}
+	rep.Assumptions = []string{"message sizes from {1,2,3,5}; names from {a,b,\"\"}; two plain invalidation groups and one whose Invalidates accepts everything it is shown", "the queue is driven from one goroutine (all operations serialise on its mutex)"}
 
 	// ---- (a) all sequences to the depth, sharded on the first two ops
 	caseIdx := 0
